@@ -2,6 +2,7 @@ package main
 
 import (
 	"fmt"
+	"go/types"
 	"strings"
 
 	"golang.org/x/tools/go/ssa"
@@ -86,12 +87,7 @@ func runC15(c *Ctx) {
 	nValid := 0
 	for _, cd := range codecs {
 		outer := p.Fn(cd.outer)
-		var f *ssa.Function
-		for _, a := range outer.AnonFuncs {
-			if a.Signature.Params().Len() == 2 && a.Signature.Results().Len() == 1 {
-				f = a
-			}
-		}
+		f := codecFuncOf(outer, 2, 1)
 		if f == nil {
 			fatalf("anchor: %s has no codec closure", cd.outer)
 		}
@@ -163,24 +159,57 @@ func runC15(c *Ctx) {
 		if strings.Contains(cd.outer, "ByteStream") {
 			optClose := factBool(vFieldLoad("rt.byteStreamOpts", "Close", nil), true)
 			var closerDefer *ssa.Defer
+			isCloserType := func(t types.Type) bool {
+				sig, ok := t.Underlying().(*types.Signature)
+				return ok && sig.Params().Len() == 0 && sig.Results().Len() == 1 && typeStr(sig.Results().At(0).Type()) == "error"
+			}
+			// one candidate value of the closer variable, with the check "this value is only taken under fact"
+			judge := func(at ssa.Instruction, val ssa.Value, guarded func(EdgePred) bool) {
+				if bm, isMC := val.(*ssa.MakeClosure); isMC && strings.Contains(bm.Fn.String(), "Close$bound") {
+					okStream := false
+					for _, bb := range bm.Bindings {
+						okStream, _ = allOrigins(bb, oIsValue(stream))
+					}
+					c.obI("R15.2", at, "stream-close-only-on-request", guarded(optClose) && okStream, "the stream's Close is taken only when the closing option was requested", "the stream can be closed although closing was not requested")
+				} else if fn, isFn := val.(*ssa.Function); isFn {
+					c.obI("R15.2", at, "default-closer-is-noop", fnName(fn) == "rt.defaultCloser", "without the option the closer does nothing", "")
+				}
+			}
 			for _, d := range defersIn(f) {
 				if mc, ok := d.Call.Value.(*ssa.MakeClosure); ok {
-					for _, b := range mc.Bindings {
-						if al, isA := b.(*ssa.Alloc); isA && al.Comment == "closer" {
-							closerDefer = d
-							for _, st := range storesToCell(al) {
-								if bm, isMC := st.Val.(*ssa.MakeClosure); isMC && strings.Contains(bm.Fn.String(), "Close$bound") {
-									okStream := false
-									for _, bb := range bm.Bindings {
-										okStream, _ = allOrigins(bb, oIsValue(stream))
-									}
-									c.obI("R15.2", st, "stream-close-only-on-request", guardedBy(st, nil, optClose) && okStream, "the stream's Close is taken only when the closing option was requested", "the stream can be closed although closing was not requested")
-								} else if fn, isFn := st.Val.(*ssa.Function); isFn {
-									c.obI("R15.2", st, "default-closer-is-noop", fnName(fn) == "rt.defaultCloser", "without the option the closer does nothing", "")
-								}
-							}
+					// defer func() { _ = closer() }(): the closure captures the closer variable
+					for _, bnd := range mc.Bindings {
+						al, isA := bnd.(*ssa.Alloc)
+						if !isA {
+							continue
+						}
+						pt, isPtr := al.Type().Underlying().(*types.Pointer)
+						if !isPtr || !isCloserType(pt.Elem()) {
+							continue
+						}
+						closerDefer = d
+						for _, st := range storesToCell(al) {
+							st := st
+							judge(st, st.Val, func(fact EdgePred) bool { return guardedBy(st, nil, fact) })
 						}
 					}
+					continue
+				}
+				// defer closer(): the variable itself is the deferred function value
+				if d.Call.IsInvoke() || !isCloserType(d.Call.Value.Type()) || len(d.Call.Args) != 0 {
+					continue
+				}
+				if _, isFn := d.Call.Value.(*ssa.Function); isFn {
+					continue
+				}
+				closerDefer = d
+				if phi, isPhi := d.Call.Value.(*ssa.Phi); isPhi {
+					for i, e := range phi.Edges {
+						pred := phi.Block().Preds[i]
+						judge(lastInstr(pred), e, func(fact EdgePred) bool { return edgeGuarded(pred, phi.Block(), nil, fact) })
+					}
+				} else {
+					judge(d, d.Call.Value, func(fact EdgePred) bool { return guardedBy(d, nil, fact) })
 				}
 			}
 			c.obF("R15.2", f, "closer-deferred", closerDefer != nil, "the (possibly no-op) closer is deferred", "")
@@ -267,12 +296,7 @@ func runC15(c *Ctx) {
 	// sibling agreement of the text codec: the consumer's first choice is encoding.TextUnmarshaler, so the producer's
 	// first choice is encoding.TextMarshaler (a value that also is an error or a Stringer is still written as its text form)
 	{
-		var tpc *ssa.Function
-		for _, a := range p.Fn("rt.TextProducer").AnonFuncs {
-			if a.Signature.Params().Len() == 2 && a.Signature.Results().Len() == 1 {
-				tpc = a
-			}
-		}
+		tpc := codecFuncOf(p.Fn("rt.TextProducer"), 2, 1)
 		var tm *ssa.TypeAssert
 		var others []*ssa.TypeAssert
 		for _, in := range instrs(tpc) {
@@ -293,7 +317,7 @@ func runC15(c *Ctx) {
 	}
 
 	// R15.6
-	jc := p.Fn("rt.JSONConsumer").AnonFuncs[0]
+	jc := codecFuncOf(p.Fn("rt.JSONConsumer"), 2, 1)
 	un := callsIn(jc, "(*encoding/json.Decoder).UseNumber")
 	dc := callsIn(jc, "(*encoding/json.Decoder).Decode")
 	okJ := len(un) == 1 && len(dc) == 1 && dominates(un[0], dc[0])
@@ -305,7 +329,7 @@ func runC15(c *Ctx) {
 		okJ = okJ && nd != nil && calleeName(&nd.Call) == "encoding/json.NewDecoder" && nd.Call.Args[0] == ssa.Value(jc.Params[0])
 	}
 	c.obF("R15.6", jc, "json-preserves-numbers", okJ, "the JSON consumer decodes the reader with UseNumber (numbers beyond float64 precision survive)", "")
-	jp := p.Fn("rt.JSONProducer").AnonFuncs[0]
+	jp := codecFuncOf(p.Fn("rt.JSONProducer"), 2, 1)
 	se := callsIn(jp, "(*encoding/json.Encoder).SetEscapeHTML")
 	en := callsIn(jp, "(*encoding/json.Encoder).Encode")
 	okE := len(se) == 1 && len(en) == 1 && dominates(se[0], en[0])
@@ -315,7 +339,7 @@ func runC15(c *Ctx) {
 		okE = isB && !b
 	}
 	c.obF("R15.6", jp, "json-no-html-escaping", okE, "the JSON producer does not HTML-escape", "")
-	yp := p.Fn("rt/yamlpc.YAMLProducer").AnonFuncs[0]
+	yp := codecFuncOf(p.Fn("rt/yamlpc.YAMLProducer"), 2, 1)
 	okY := false
 	for _, d := range defersIn(yp) {
 		if calleeName(&d.Call) == "(*gopkg.in/yaml.v3.Encoder).Close" {
@@ -342,6 +366,19 @@ func ruleSourceAlwaysClosed(c *Ctx, rule string, f *ssa.Function, data *ssa.Para
 	for _, df := range defersIn(f) {
 		if df.Call.IsInvoke() && df.Call.Method.Name() == "Close" && df.Call.Value == val {
 			d = df
+		}
+		// defer func() { _ = rc.Close() }()
+		if mc, ok := df.Call.Value.(*ssa.MakeClosure); ok {
+			if cf, isFn := mc.Fn.(*ssa.Function); isFn {
+				for _, ci := range allCalls(cf) {
+					if !ci.Common().IsInvoke() || ci.Common().Method.Name() != "Close" {
+						continue
+					}
+					if sameOrigins(ci.Common().Value, val) && dominatesAllReturns(cf, ci) {
+						d = df
+					}
+				}
+			}
 		}
 	}
 	c.obI(rule, ta, "defers-source-close", d != nil && okv != nil, "the closable source's Close is deferred", "")
